@@ -82,6 +82,27 @@ def make_data(rng, d=None, n_classes=None, n_per_class=None, n_tuples=None, sep=
               chunks=chunks)
 
 
+def encode_labels(rng, data):
+  """the same data with class labels / chunk ids renamed by a strictly increasing map (1-based, gapped, large):
+  labels are names, not indices 0..C-1; unknown (-1) entries stay -1"""
+  out = dict(data)
+  mode = int(rng.integers(0, 3))
+  if mode == 0:
+    enc = lambda v: v + 1
+  elif mode == 1:
+    enc = lambda v: 10 * (v + 1)
+  else:
+    step = int(rng.integers(2, 5))
+    off = int(rng.integers(0, 3))
+    enc = lambda v: step * v + off
+  y = np.asarray(data['y'])
+  out['y'] = np.where(y >= 0, enc(y), y)
+  ch = np.asarray(data['chunks'])
+  out['chunks'] = np.where(ch >= 0, enc(ch), ch)
+  out['label_encoding'] = ['1-based', 'tens', 'affine'][mode]
+  return out
+
+
 def fit_args(name, data):
   k = KIND[name]
   X = data['X']
